@@ -35,4 +35,8 @@ def build(repo, tier, seed):
                          "structural (AST) obligations on Implementation.__init__ and its helpers: every rejection (omitted abstract member, unknown member name) precedes the first registration and nothing can reject afterwards (group Implementation:C07)",
                          "Dataset.overload(alias)(func) is under contract (group Dataset.overload:C07): one dataset is built, registered under every alias and returned (dataset() and register by contract)",
                          "bounded only: interface()/implements()/Interface.__init__ and which alias each member resolves to (metaclass code is outside the verifier's reach)"]
+    from . import definition_time
+    pl_syn, pl_und = definition_time.plumbing(repo)
+    b["syntactic"] += pl_syn
+    b["undecided"] += pl_und
     return b
